@@ -70,6 +70,14 @@ type Lemma struct {
 	Solver string // hint
 }
 
+type GlobalInv struct {
+	Pkg   string
+	Name  string
+	By    string // establishing function (init#1)
+	Expr  Expr
+	Src   string
+}
+
 type GhostField struct {
 	Struct string // pkgpath.Type
 	Name   string
@@ -81,6 +89,7 @@ type Specs struct {
 	Spec    map[string]*SpecFunc
 	Lemmas  []*Lemma
 	Ghost   map[string]*GhostField // key: pkgpath.Type.#name
+	GlobalInvs []*GlobalInv
 	Files   []string
 	Guarded []string
 }
@@ -89,7 +98,7 @@ func NewSpecs() *Specs {
 	return &Specs{Funcs: map[string]*FuncContract{}, Spec: map[string]*SpecFunc{}, Ghost: map[string]*GhostField{}}
 }
 
-var reFuncHdr = regexp.MustCompile(`^func\s+(\(\s*\w*\s*(\*?)\s*(\w+)\s*\)\s*)?([\w$.]+)\s*$`)
+var reFuncHdr = regexp.MustCompile(`^func\s+(\(\s*\w*\s*(\*?)\s*(\w+)\s*\)\s*)?([\w$.#]+)\s*$`)
 var reLabel = regexp.MustCompile(`^(\w+)\[([\w.\-]+)\]\s*`)
 
 // LoadSpecFile parses one file. pkgPath is the import path of the package the file
@@ -294,6 +303,22 @@ func (sp *Specs) LoadSpecFile(path, pkgPath string) error {
 				return fail("%v", err)
 			}
 			sp.Lemmas = append(sp.Lemmas, &Lemma{Name: name, Expr: e, Src: rest, Axiom: word == "axiom", File: path, Line: ln, Props: curProps})
+		case "globalinv":
+			// globalinv[name] by init#1: expr
+			if !strings.HasPrefix(rest, "by ") {
+				return fail("globalinv[name] by <init function>: <expr>")
+			}
+			i := strings.Index(rest, ":")
+			if i < 0 {
+				return fail("globalinv needs ':'")
+			}
+			by := strings.TrimSpace(rest[3:i])
+			src := strings.TrimSpace(rest[i+1:])
+			e, err := ParseExpr(src)
+			if err != nil {
+				return fail("%v", err)
+			}
+			sp.GlobalInvs = append(sp.GlobalInvs, &GlobalInv{Pkg: pkgPath, Name: label, By: pkgPath + "." + by, Expr: e, Src: src})
 		case "ghost":
 			// ghost field pkg.Type.#name T
 			parts := strings.Fields(rest)
